@@ -2,7 +2,7 @@ package main
 
 import (
 	"go/token"
-	"go/types"
+	"sort"
 
 	"golang.org/x/tools/go/ssa"
 )
@@ -13,9 +13,10 @@ import (
 // exported API anchors; nothing is matched by local identifier.
 
 type listInfo struct {
-	Cell       *ssa.Alloc
-	Literal    string // object-type literal under which the list is appended
-	Append     *ssa.Store
+	Cell       *ssa.Alloc  // the variable's cell, if it has one
+	Var        interface{} // identity of the list variable (listvar.go)
+	Literal    string      // object-type literal under which the list is appended
+	Append     ssa.Instruction // the store of the append result (cell) or the append call (register)
 	FeedLoops  []*scanLoop // loops over the list that call RequestObject
 	ReadLoops  []*scanLoop // loops over the list that call BatchObjectIter.Next
 	OtherLoops []*scanLoop
@@ -25,6 +26,7 @@ type scanLoop struct {
 	Fn         *ssa.Function
 	L          *loop
 	Cell       *ssa.Alloc
+	Var        interface{}    // identity of the slice variable whose length bounds the loop
 	Param      *ssa.Parameter // the slice is a parameter used directly
 	Descending bool
 	IndexPhi   *ssa.Phi
@@ -71,11 +73,13 @@ func (c *Ctx) loopOver(f *ssa.Function, l *loop) *scanLoop {
 		return nil
 	}
 	var lenParam *ssa.Parameter
+	var lenVar interface{}
 	lenCell := func(v ssa.Value) *ssa.Alloc {
 		call, ok := v.(*ssa.Call)
 		if !ok || !isBuiltin(&call.Call, "len") {
 			return nil
 		}
+		lenVar = c.listID(call.Call.Args[0])
 		if p, ok := call.Call.Args[0].(*ssa.Parameter); ok {
 			lenParam = p
 			return nil
@@ -98,7 +102,7 @@ func (c *Ctx) loopOver(f *ssa.Function, l *loop) *scanLoop {
 	case token.LSS:
 		// idx < len(cell), idx = phi+1 (rotated range) or phi
 		cell := lenCell(cmp.Y)
-		if cell == nil && lenParam == nil {
+		if cell == nil && lenParam == nil && lenVar == nil {
 			return nil
 		}
 		var phi *ssa.Phi
@@ -110,7 +114,7 @@ func (c *Ctx) loopOver(f *ssa.Function, l *loop) *scanLoop {
 		if phi == nil || phi.Block() != head {
 			return nil
 		}
-		return &scanLoop{Fn: f, L: l, Cell: cell, Param: lenParam, IndexPhi: phi}
+		return &scanLoop{Fn: f, L: l, Cell: cell, Var: lenVar, Param: lenParam, IndexPhi: phi}
 	case token.GTR, token.GEQ:
 		phi, ok := cmp.X.(*ssa.Phi)
 		if !ok || phi.Block() != head {
@@ -130,7 +134,7 @@ func (c *Ctx) loopOver(f *ssa.Function, l *loop) *scanLoop {
 			}
 		}
 		cell := lenCell(init)
-		if cell == nil {
+		if cell == nil && lenVar == nil {
 			return nil
 		}
 		if (cmp.Op == token.GTR) != fromLen {
@@ -148,7 +152,7 @@ func (c *Ctx) loopOver(f *ssa.Function, l *loop) *scanLoop {
 				}
 			}
 		}
-		return &scanLoop{Fn: f, L: l, Cell: cell, Descending: true, IndexPhi: phi, FromLen: fromLen}
+		return &scanLoop{Fn: f, L: l, Cell: cell, Var: lenVar, Param: lenParam, Descending: true, IndexPhi: phi, FromLen: fromLen}
 	}
 	return nil
 }
@@ -192,33 +196,64 @@ func (c *Ctx) scanModel() *scanInfo {
 				if registerBlob != nil && x.Call.StaticCallee() == registerBlob {
 					si.BlobCalls = append(si.BlobCalls, x)
 				}
-			case *ssa.Store:
-				cell, ok := x.Addr.(*ssa.Alloc)
-				if !ok {
-					continue
-				}
-				if _, isSlice := cell.Type().Underlying().(*types.Pointer).Elem().Underlying().(*types.Slice); !isSlice {
-					continue
-				}
-				call, ok := x.Val.(*ssa.Call)
-				if !ok || !isBuiltin(&call.Call, "append") {
-					continue
-				}
-				if u, ok := call.Call.Args[0].(*ssa.UnOp); !ok || u.X != ssa.Value(cell) {
-					continue
-				}
-				li := &listInfo{Cell: cell, Append: x, Literal: c.typeLiteralAt(x.Block(), si.NextCall)}
-				si.Lists = append(si.Lists, li)
 			}
 		}
 	}
+	for b := range si.HeaderLoop.Blocks {
+		for _, in := range b.Instrs {
+			call, ok := in.(*ssa.Call)
+			if !ok || !isBuiltin(&call.Call, "append") || !isSliceType(call.Type()) {
+				continue
+			}
+			id := c.listID(call.Call.Args[0])
+			if id == nil {
+				continue
+			}
+			li := &listInfo{Var: id, Append: call, Literal: c.typeLiteralAt(call.Block(), si.NextCall)}
+			if cell, ok := id.(*ssa.Alloc); ok {
+				// the result must be stored back into the same variable
+				var st *ssa.Store
+				for _, r := range *call.Referrers() {
+					if s, ok := r.(*ssa.Store); ok && c.cellOf(s.Addr) == cell {
+						st = s
+					}
+				}
+				if st == nil {
+					continue
+				}
+				li.Cell, li.Append = cell, st
+			} else if c.listID(call) != id {
+				continue
+			}
+			si.Lists = append(si.Lists, li)
+		}
+	}
+	sort.Slice(si.Lists, func(i, j int) bool { return si.Lists[i].Append.Pos() < si.Lists[j].Append.Pos() })
 	// loops over each list, in the scan function and in its closures
 	requestObject := c.fn("/git", "*BatchObjectIter", "RequestObject")
 	batchNext := c.fn("/git", "*BatchObjectIter", "Next")
-	fns := append([]*ssa.Function{si.Fn}, si.Fn.AnonFuncs...)
-	for _, af := range si.Fn.AnonFuncs {
-		fns = append(fns, af.AnonFuncs...)
+	// the scan function, its closures, and the module functions it starts or calls
+	var fns []*ssa.Function
+	seenFn := map[*ssa.Function]bool{}
+	var addFn func(f *ssa.Function, depth int)
+	addFn = func(f *ssa.Function, depth int) {
+		if f == nil || seenFn[f] || depth > 3 || len(f.Blocks) == 0 || !c.inRuleScope(f) {
+			return
+		}
+		seenFn[f] = true
+		fns = append(fns, f)
+		for _, af := range f.AnonFuncs {
+			addFn(af, depth)
+		}
+		allInstrs(f, func(in ssa.Instruction) {
+			if ci, ok := in.(ssa.CallInstruction); ok {
+				if cal := ci.Common().StaticCallee(); cal != nil && cal.Parent() == nil && !knownFuncs[cal.String()] {
+					addFn(cal, depth+1)
+				}
+			}
+		})
 	}
+	addFn(si.Fn, 0)
 	for _, f := range fns {
 		for _, l := range loopsOf(f) {
 			sl := c.loopOver(f, l)
@@ -226,7 +261,7 @@ func (c *Ctx) scanModel() *scanInfo {
 				continue
 			}
 			for _, li := range si.Lists {
-				if li.Cell != sl.Cell {
+				if sl.Var == nil || li.Var != sl.Var {
 					continue
 				}
 				hasReq, hasNext := false, false
